@@ -1,7 +1,7 @@
 (* JsonCheck.v — what one T2 case of C16 evaluates: model vs implementation (ties) and
    implementation vs specification (property), folded into one integer code. *)
 From Coq Require Import ZArith List Bool String.
-From BP Require Import Schema JsonBase Json.
+From BP Require Import Schema JsonBase Json JsonWf.
 Import ListNotations.
 Open Scope string_scope.
 Open Scope Z_scope.
@@ -55,7 +55,8 @@ Definition bit (k : Z) (ok : bool) : Z := if ok then 0 else k.
       16  TIE       py_asdict                      <> pyd
       32  TIE       py_to_json ", " ": "           <> pyjson
       64  TIE       py_to_json "," ":"             <> pycomp
-     128  PROPERTY  pycomp                         <> print_compact (expected t v)          *)
+     128  PROPERTY  pycomp                         <> print_compact (expected t v)
+     256  PROPERTY  cfill / cdec is not accepted by the recogniser wf_json                  *)
 Definition c16_code (t : nty) (v : val) (cfill cdec : option string) (pyd : pyres pyj)
            (pyjson pycomp : pyres string) : Z :=
   let want := print_compact (expected t v) in
@@ -66,4 +67,5 @@ Definition c16_code (t : nty) (v : val) (cfill cdec : option string) (pyd : pyre
   bit 16 (pdict_eqb (py_asdict t v) pyd) +
   bit 32 (pstr_eqb (py_to_json ", " ": " t v) pyjson) +
   bit 64 (pstr_eqb (py_to_json "," ":" t v) pycomp) +
-  bit 128 (pstr_eqb pycomp (POk want)).
+  bit 128 (pstr_eqb pycomp (POk want)) +
+  bit 256 (match cfill, cdec with Some a, Some b => wf_json a && wf_json b | _, _ => false end).
